@@ -9,6 +9,7 @@ import (
 	"bytes"
 	"fmt"
 	"math"
+	"math/rand"
 	"os"
 	"testing"
 )
@@ -344,4 +345,225 @@ func TestB2C01Trees(t *testing.T) {
 		}
 	}
 	t.Logf("B2-CASES %d", cases)
+}
+
+// c01Seed returns the seed of the randomised parts (VERIF_SEED, default 1).
+func c01Seed() int64 {
+	seed := int64(1)
+	fmt.Sscanf(os.Getenv("VERIF_SEED"), "%d", &seed)
+	return seed
+}
+
+// c01AllOpts lists every combination of the five public output options.
+func c01AllOpts() []OutputOptions {
+	bits := []OutputOptions{OptDictTypes, OptTrimStandardFonts, OptPretty, OptTextStringUtf8, OptContentStream}
+	var out []OutputOptions
+	for m := 0; m < 1<<len(bits); m++ {
+		var o OutputOptions
+		for i, b := range bits {
+			if m&(1<<i) != 0 {
+				o |= b
+			}
+		}
+		out = append(out, o)
+	}
+	return out
+}
+
+// TestB2C01NameThenValue: a name (as a dictionary key, an array element or a top-level
+// object) followed by a value of every kind.  The name carries every byte value in
+// first, inner and last position; the value starts with every kind of token (regular
+// character, sign, period, delimiter).  All 32 option combinations.
+func TestB2C01NameThenValue(t *testing.T) {
+	var names []Name
+	for c := 0; c < 256; c++ {
+		b := byte(c)
+		names = append(names, Name([]byte{b}), Name([]byte{'K', b}), Name([]byte{b, 'K'}), Name([]byte{'K', b, 'K'}))
+	}
+	for _, s := range b2Strings(2) {
+		names = append(names, Name(s))
+	}
+	values := []Object{Integer(1), Integer(-1), Real(0.5), Real(-2.5), Real(3), Boolean(true), Boolean(false), NewReference(3, 0),
+		Name("V"), Name(""), String("s"), String("\x80\xff"), String("("), Array{}, Array{Integer(1)}, Dict{}, Dict{"I": Integer(1)}, nil, Array(nil)}
+	opts := c01AllOpts()
+	cases := 0
+	fails := 0
+	dropNulls := func(o Object) Object {
+		d, ok := o.(Dict)
+		if !ok {
+			return o
+		}
+		r := Dict{}
+		for k, v := range d {
+			if v != nil {
+				r[k] = v
+			}
+		}
+		return r
+	}
+	check := func(kind string, opt OutputOptions, text []byte, ferr error, want Object, o Object) {
+		cases++
+		if ferr != nil {
+			t.Errorf("B2-FAIL format-error %s opt=%d obj=%s: %v", kind, opt, b2Short(o), ferr)
+			return
+		}
+		got, err := b2ParseOne(text)
+		if err != nil || !Equal(dropNulls(got), want) {
+			fails++
+			if fails <= 40 {
+				t.Errorf("B2-FAIL %s opt=%d obj=%s text=%.200q got=%s err=%s", kind, opt, b2Short(o), text, b2Short(got), b2ShortErr(err))
+			}
+		}
+	}
+	for _, opt := range opts {
+		for _, name := range names {
+			for _, v := range values {
+				// an entry with a null value (nil, nil array) is absent or reads as null, which the
+				// property treats alike: both sides are compared without their null entries
+				d := Dict{name: v, "M": Integer(2)}
+				var dbuf bytes.Buffer
+				ferr := Format(&dbuf, opt, d)
+				check("name-then-value-dict", opt, dbuf.Bytes(), ferr, dropNulls(b2Expect(d)), d)
+				a := Array{name, v, name}
+				var buf bytes.Buffer
+				ferr = Format(&buf, opt, a)
+				check("name-then-value-array", opt, buf.Bytes(), ferr, b2Expect(a), a)
+				// top level: the parse helper reads the objects as the body of an array
+				buf.Reset()
+				ferr = Format(&buf, opt, name, v, name)
+				check("name-then-value-seq", opt, append(append([]byte("["), buf.Bytes()...), ']'), ferr, b2Expect(a), a)
+			}
+		}
+	}
+	if fails > 40 {
+		t.Errorf("B2-FAIL name-then-value (%d further failures not listed)", fails-40)
+	}
+	t.Logf("B2-CASES %d", cases)
+}
+
+// c01RandBytes draws a byte string: every byte value can occur, the bytes with a special
+// meaning in the syntax are favoured.
+func c01RandBytes(rng *rand.Rand, maxLen int) []byte {
+	n := rng.Intn(maxLen + 1)
+	special := []byte("\x00\t\n\f\r ()<>[]{}/%#\\+-.0129ARnrtbf\x7f\x80\xff")
+	out := make([]byte, n)
+	for i := range out {
+		if rng.Intn(3) == 0 {
+			out[i] = byte(rng.Intn(256))
+		} else {
+			out[i] = special[rng.Intn(len(special))]
+		}
+	}
+	return out
+}
+
+func c01RandObject(rng *rand.Rand, depth int) Object {
+	k := rng.Intn(12)
+	if depth <= 0 && k >= 9 {
+		k = rng.Intn(9)
+	}
+	switch k {
+	case 0:
+		return nil
+	case 1:
+		return Boolean(rng.Intn(2) == 0)
+	case 2:
+		switch rng.Intn(4) {
+		case 0:
+			return Integer(rng.Intn(21) - 10)
+		case 1:
+			return Integer(int64(rng.Uint64()))
+		case 2:
+			return Integer(int64(1)<<uint(rng.Intn(63)) - int64(rng.Intn(3)) + 1)
+		default:
+			return Integer(-(int64(1)<<uint(rng.Intn(63)) - int64(rng.Intn(3)) + 1))
+		}
+	case 3:
+		switch rng.Intn(4) {
+		case 0:
+			return Real(float64(rng.Intn(2001)-1000) / 8)
+		case 1:
+			return Real(float64(rng.Intn(2000001)-1000000) / 1000)
+		case 2:
+			return Real(math.Ldexp(float64(rng.Int63n(1<<53)), rng.Intn(200)-126) * float64(1-2*rng.Intn(2)))
+		default:
+			for {
+				x := math.Float64frombits(rng.Uint64())
+				if !math.IsNaN(x) && !math.IsInf(x, 0) {
+					return Real(x)
+				}
+			}
+		}
+	case 4, 5:
+		return Name(c01RandBytes(rng, 6))
+	case 6, 7:
+		s := c01RandBytes(rng, 12)
+		if len(s) == 0 {
+			// the non-nil empty string is a recorded finding (empty-string), enumerated elsewhere
+			return String(nil)
+		}
+		return String(s)
+	case 8:
+		return NewReference(uint32(rng.Intn(1<<24-1))+1, uint16(rng.Intn(65536)))
+	case 9, 10:
+		n := rng.Intn(5)
+		a := make(Array, n)
+		for i := range a {
+			a[i] = c01RandObject(rng, depth-1)
+		}
+		return a
+	default:
+		n := rng.Intn(5)
+		d := Dict{}
+		for i := 0; i < n; i++ {
+			d[Name(c01RandBytes(rng, 4))] = c01RandObject(rng, depth-1)
+		}
+		return d
+	}
+	return nil
+}
+
+// TestB2C01Random: random object trees (names and strings over all byte values, integers
+// and reals over the whole range) formatted one after another under a random option
+// combination.
+func TestB2C01Random(t *testing.T) {
+	rng := rand.New(rand.NewSource(c01Seed()))
+	rounds := 200000
+	if b2Thorough() {
+		rounds = 1500000
+	}
+	opts := c01AllOpts()
+	fails := 0
+	for i := 0; i < rounds; i++ {
+		opt := opts[rng.Intn(len(opts))]
+		n := 1 + rng.Intn(3)
+		seq := make([]Object, n)
+		want := Array{}
+		for j := range seq {
+			seq[j] = c01RandObject(rng, 3)
+			want = append(want, b2Expect(seq[j]))
+		}
+		var buf, buf2 bytes.Buffer
+		if err := Format(&buf, opt, seq...); err != nil {
+			t.Errorf("B2-FAIL format-error opt=%d seq=%s: %v", opt, b2Short(seq), err)
+			continue
+		}
+		Format(&buf2, opt, seq...)
+		if !bytes.Equal(buf.Bytes(), buf2.Bytes()) {
+			t.Errorf("B2-FAIL nondeterministic opt=%d seq=%s", opt, b2Short(seq))
+		}
+		wrapped := append(append([]byte("["), buf.Bytes()...), ']')
+		s := newScanner(bytes.NewReader(wrapped), nil, nil)
+		obj, err := s.ReadObject()
+		if err != nil || !Equal(obj, want) {
+			fails++
+			if fails <= 20 {
+				t.Errorf("B2-FAIL %s opt=%d seq=%s text=%.300q got=%s err=%s", b2Key("random-roundtrip", seq...), opt, b2Short(seq), buf.Bytes(), b2Short(obj), b2ShortErr(err))
+			}
+		}
+	}
+	if fails > 20 {
+		t.Errorf("B2-FAIL random-roundtrip (%d further failures not listed)", fails-20)
+	}
+	t.Logf("B2-CASES %d", rounds)
 }
